@@ -1,4 +1,5 @@
 import NfpmModel.Contents
+import NfpmModel.Payload
 /-
   Wire format shared by the driver and the Go harness: one request per line,
   space separated tokens; byte strings are lower-case hex ("-" = empty),
@@ -169,6 +170,35 @@ def showContent (c : Content) : String :=
 
 def showContents (l : List Content) : String :=
   s!"ok {l.length}" ++ String.join (l.map (fun c => " " ++ showContent c))
+
+def pFmt : P Fmt := do
+  match (← tok) with
+  | "deb" => pure .deb
+  | "rpm" => pure .rpm
+  | "apk" => pure .apk
+  | "ipk" => pure .ipk
+  | "archlinux" => pure .arch
+  | t => throw s!"unknown format {t}"
+
+def pMember : P Member := do
+  let name ← pBytes
+  let kind ← pNat
+  let mode ← pNat
+  let uname ← pBytes
+  let gname ← pBytes
+  let mtime ← pInt
+  let size ← pNat
+  let link ← pBytes
+  let src ← pBytes
+  let flags ← pNat
+  let inPayload ← pBool
+  pure { name, kind := kind.toUInt8, mode, uname, gname, mtime, size, link, src, flags, inPayload }
+
+def showMember (m : Member) : String :=
+  s!"{hex m.name} {m.kind.toNat} {m.mode} {hex m.uname} {hex m.gname} {m.mtime} {m.size} {hex m.link} {hex m.src} {m.flags} {if m.inPayload then 1 else 0}"
+
+def showMembers (l : List Member) : String :=
+  s!"{l.length}" ++ String.join (l.map (fun m => " " ++ showMember m))
 
 def showBytesList (l : List Bytes) : String :=
   s!"{l.length}" ++ String.join (l.map (fun b => " " ++ hex b))
